@@ -209,6 +209,23 @@ def symbolic_bytes(t, enc_keys=None):
 
 
 # ---------------------------------------------------------------------- R02.4
+def _loop_blocks(a):
+    """blocks that lie on a cycle of the normal-path CFG"""
+    out = set()
+    for (x, y) in a.cfg.back_edges():
+        # natural loop of the back edge x -> y
+        body = {y, x}
+        st = [x]
+        while st:
+            n = st.pop()
+            for p in a.cfg.pred[n] if hasattr(a.cfg, 'pred') else []:
+                if p not in body:
+                    body.add(p)
+                    st.append(p)
+        out |= body
+    return out
+
+
 def check_labeled_extract(rep, facts, rule='R02.4'):
     a = get_an(facts, EXTRACT)
     if a is None:
@@ -230,6 +247,17 @@ def check_labeled_extract(rep, facts, rule='R02.4'):
             d = w[2]
             if d[0] == 'call' and d[1] == 'hkdf::HkdfExtract::input_ikm' and w[3] and not w[1]:
                 seq.append(d[2][1])
+            elif d[0] in ('call', 'call?') and d[1] == 'hkdf::HkdfExtract::input_ikm' and len(ws) == 1:
+                # one absorbing call inside a loop over an array literal: the pieces are the literal's elements, in order
+                from .common import literal_iteration
+                elems = literal_iteration(a, d[2][1])
+                lb = _loop_blocks(a)
+                # a plain `for`: the only branch inside the loop is the one on next() (no break / continue / condition)
+                nsw = len([b2 for b2 in lb if a.body.blocks[b2]['term']['k'] == 'switch' and not a.body.blocks[b2]['cleanup']])
+                if elems is not None and w[0][0] in lb and nsw == 1 and len(a.cfg.back_edges()) == 1:
+                    seq.extend(strip_sites(e) for e in elems)
+                else:
+                    seq.append(('unknown', 'writer'))
             else:
                 seq.append(('unknown', 'writer'))
         want = [rfc.VERSION_LABEL, ('param', 2), ('param', 3), ('param', 4)]
